@@ -641,6 +641,15 @@ func (m *lfsModule) streamDownloadWithVerify(r *http.Request, w http.ResponseWri
 		return
 	}
 
+	if written != expectedSize {
+		m.logger.Error("LFS download size differs from envelope",
+			"bucket", logSafe(bucket), "key", logSafe(key), "expected_size", expectedSize, "read", written)
+		m.tracker.EmitDownloadIntegrityFailed(requestID, bucket, key, "stream", "sha256", expectedSHA, "", written, expectedSize)
+		m.lfsWriteHTTPError(w, requestID, "", http.StatusBadGateway, "integrity_failure",
+			"S3 object is smaller than the envelope-declared size; refusing to serve")
+		return
+	}
+
 	actualSHA := hex.EncodeToString(hasher.Sum(nil))
 	if actualSHA != expectedSHA {
 		m.logger.Error("LFS download integrity check FAILED — S3 bytes do not match Kafka envelope checksum",
